@@ -243,6 +243,8 @@ namespace bloch::runtime {
             bool initialized = false;
         };
         std::vector<std::unordered_map<std::string, VarEntry>> m_env;
+        // Index into m_env of the first scope of each active call: name lookup stops there.
+        std::vector<size_t> m_frameBases;
         Value m_returnValue;
         bool m_hasReturn = false;
         std::unordered_map<const Expression*, std::vector<int>> m_measurements;
@@ -342,6 +344,9 @@ namespace bloch::runtime {
         // Scope & output helpers
         void beginScope();
         void endScope();
+        void beginFrame();
+        void endFrame();
+        size_t frameBase() const { return m_frameBases.empty() ? 0 : m_frameBases.back(); }
         void flushEchoes();
 
        public:
